@@ -120,16 +120,23 @@ def run(chk, prog):
     sw = prog.fn('StoryState::switch_flow_internal')
     if chk.anchor(RC, 'StoryState::switch_flow_internal', sw):
         g = cfg(sw)
-        swaps = [(bb, t) for bb, t in sw.calls() if callee_short(t) == 'mem::swap']
-        good = [bb for bb, t in swaps if any('StoryState::current_flow' in fields_of(tr.prov(sw, a)) for a in t['args'])
-                and all(tyname(place_ty(sw, a['pl'])).lstrip('&').replace('mut ', '') == 'Flow'
-                        for a in t['args'] if a['k'] in ('copy', 'move'))]
+        # the exchange: mem::swap(&mut current_flow, &mut other) or `let old = mem::replace(&mut current_flow, new)`
+        swaps = [(bb, t) for bb, t in sw.calls() if callee_short(t) in ('mem::swap', 'mem::replace')]
+        good = []
+        for bb, t in swaps:
+            refs = [a for a in t['args'] if a['k'] in ('copy', 'move') and place_ty(sw, a['pl']).startswith('&')]
+            on_cur = any('StoryState::current_flow' in fields_of(tr.prov(sw, a)) and not (
+                fields_of(tr.prov(sw, a)) - {'StoryState::current_flow', 'Story::state'}) for a in refs)
+            whole = all(tyname(place_ty(sw, a['pl'])).lstrip('&').replace('mut ', '') == 'Flow'
+                        for a in t['args'] if a['k'] in ('copy', 'move'))
+            if on_cur and whole:
+                good.append(bb)
         # no field-wise assignments into current_flow
         fieldwise = [sw.loc(bb, si) for bb, si, s in sw.stmts() if s['k'] == 'assign'
                      and ('StoryState', 'current_flow') in fields_of_place(s['pl'])
                      and fields_of_place(s['pl'])[-1] != ('StoryState', 'current_flow')]
         chk.decide(RC, chk.key(RC, 'whole-swap'), len(good) == 1 and not fieldwise,
-                   'one mem::swap of whole Flow values, no field-wise update',
+                   'one exchange of whole Flow values (mem::swap / mem::replace), no field-wise update',
                    'switch_flow_internal no longer exchanges whole Flow values (swaps on current_flow: %d, field-wise '
                    'writes: %s): per-flow data would leak between flows' % (len(good), fieldwise), sw.loc(0))
         ins = [bb for bb, t in sw.calls() if callee_short(t) == 'HashMap::insert']
